@@ -494,7 +494,7 @@ Proof.
     - intros k' sv' Hk' Hin. destruct (iv_sc _ _ _ _ _ HI _ _ _ Hk' Hin) as (cl' & Hcl' & <-). congruence.
     - intros c' cs' Hc' Hne serial callee Hent.
       destruct (iv_ec _ _ _ _ _ HI _ _ _ _ _ Hc' Hent) as [(cl' & Hcl' & <- & _)|[Hn _]]; congruence.
-    - apply (iv_cb _ _ _ _ _ HI). eauto. }
+    - apply (proj2 (iv_cb _ _ _ _ _ HI)). eauto. }
   assert (f ≠ s_cookie sv) as Hf1 by (intros ->; apply Hf; by eapply in_use_svc).
   assert (f ≠ o_cookie o) as Hf2 by (intros ->; apply Hf; by eapply in_use_obj).
   pose proof (handler_keeps_call s e f bs b cl o _ _ _ H0 B1 B2 Hf1 Hf2) as H3.
